@@ -22,6 +22,8 @@ class Stubs:
         self.docs = {}
         self.fields = {}        # attribute name -> external classes that always carry it
         self.consts = {}        # dotted name of an external constant -> V term
+        self.statics = {}       # 'module.global' -> f(eng) -> Static (reflected at check time)
+        self.quals = {}         # repo function qual -> stub f(eng, st, pos, kw)
 
     # ---- registration
     def fn(self, dotted, doc='', witness=None):
@@ -141,6 +143,13 @@ class Stubs:
     def split_axioms(self, eng, st, s, pos, seq):
         j = z3.Int('sp!j')
         st.assume(z3.Length(seq) >= 1)
+        if len(pos) == 2:
+            # s.split(sep, 1): cut at the first occurrence of sep, if any
+            sep = V.s(pos[0])
+            p0, p1 = V.s(seq[0]), V.s(seq[1])
+            st.assume(z3.If(z3.Contains(s, sep),
+                            z3.And(z3.Length(seq) == 2, s == z3.Concat(p0, sep, p1), z3.Not(z3.Contains(p0, sep))),
+                            z3.And(z3.Length(seq) == 1, p0 == s)))
         st.assume(qforall([j], z3.Implies(z3.And(j >= 0, j < z3.Length(seq)), V.is_str(seq[j])),
                             patterns=[seq[j]]))
 
